@@ -101,6 +101,14 @@ fn c14_program(rng: &mut Rng) -> String {
                 };
                 s.push_str(&format!("print(\"=~\\n\", c{} {} {});\n", j, op, arg));
             }
+            3 if rng.chance(1, 3) => {
+                // an operator expression over variables as an array initializer runs once per element
+                let avail: Vec<&str> = C14_OPS.iter().cloned().filter(|m| levels.iter().take(j + 1).any(|l| l.methods.iter().any(|x| x == m))).collect();
+                if !avail.is_empty() {
+                    let op = *rng.pick(&avail);
+                    s.push_str(&format!("let one{} = 1; print(\"=~\\n\", array({}, c{} {} one{}));\n", u, rng.below(4), j, op, u));
+                }
+            }
             4 => {
                 let ok = base == 3 || levels.iter().take(j + 1).any(|l| l.methods.iter().any(|x| x == "get"));
                 if ok || rng.chance(1, 10) {
